@@ -17,6 +17,26 @@ CLAIMED = {
              "C12), zero-valued limits treated as unset (as the code does), DelayManager/PSU/BCP client-view "
              "contracts. Platform back ends themselves are outside.",
         ref="4.C08"),
+    "C11": dict(
+        text="Every function of core/player.py that reads or writes player variables is proved, for all names, "
+             "scalar values and stores, on the slice of the store at the key it is called with (a structural "
+             "obligation re-checked each run shows they subscript self.vars with that key only, and that only "
+             "__init__/__setattr__ write it): Player.__init__ allocates a NEW dict (no two players share variables), "
+             "index/number/score start values; __setattr__/__setitem__/set_with_kwargs/add_with_kwargs store the "
+             "value and post exactly one player_<name> event with value, prev_value, change and player_num iff the "
+             "value is new or changed, simple and events are on, none otherwise. EnableDisableMixin: a persisted "
+             "enable flag is read from / written to the bound player's variable only, device_loaded_in_mode binds "
+             "the player whose turn starts and leaves a stored flag exactly as stored (default only when absent), "
+             "device_removed_from_mode drops the link. LogicBlock.device_loaded_in_mode: the state object IS the "
+             "object in the bound player's variable, unchanged when present, fresh with the start value when "
+             "absent; dropped on removal.",
+        note="Bounded, not counted as proved: ModeController._player_turn_start/_ended over 3 modes; "
+             "Player.enable_events with a 2-variable store. Trusted: pyvc encoding, z3/cvc5, values are scalars in "
+             "the Player proofs, instance __dict__ model, subclass _enable/_disable hooks and monitors do not write "
+             "player variables. The cross-turn isolation clause is the ownership argument of DESIGN 4.C11 over these "
+             "frames (stated, not a VC); shot/shot_group/achievement/timer accessors and player rotation in game.py "
+             "are not yet under contract.",
+        ref="4.C11"),
     "C15": dict(
         text="FileManager.save proved against a ghost file system for every crash point and injected fault: the only "
              "step that touches the target is os.replace of a completely written temp file whose path differs from "
